@@ -183,6 +183,43 @@ def op_metadata(signed_ok, via='store'):
     return f
 
 
+def op_metadata_refresh():
+    """A long-lived store whose signed source was loaded fine; the source is loaded again (refresh) and now serves a
+    document that names one more entity and whose signature does not verify.  accept = that entity is served."""
+    def f():
+        from saml2_tophat.mdstore import MetadataStore
+        from saml2_tophat.attribute_converter import ac_factory
+        if 'mdrefresh' not in _c:
+            def feed(ents):
+                body = ''.join(world.idp_md(e, keys=(('idpB', 'signing'),)).replace(' xmlns:md="%s"' % world.MD, '', 1) for e in ents)
+                x = '<md:EntitiesDescriptor xmlns:md="%s" ID="MD1">%s%s</md:EntitiesDescriptor>' % (world.MD, forge.sig_template('MD1'), body)
+                return xmlsec.sign_xml(x, 'MD1', world.priv('mdsigner'))
+            good = feed(['urn:vp:fed-idp'])
+            forged = feed(['urn:vp:fed-idp']).replace('</md:EntitiesDescriptor>', world.idp_md('urn:vp:evil-idp', keys=(('mallory', 'signing'),)).replace(' xmlns:md="%s"' % world.MD, '', 1) + '</md:EntitiesDescriptor>')
+            _c['mdrefresh'] = (good, forged)
+        good, forged = _c['mdrefresh']
+        node = 'urn:oasis:names:tc:SAML:2.0:metadata:EntitiesDescriptor'
+        mds = MetadataStore(ac_factory(), sp('wr').config)
+        mds.http = _Http({'https://md.example/fed': good})
+        exc = None
+        try:
+            mds.load('remote', url='https://md.example/fed', cert=world.crt('mdsigner'), node_name=node)
+        except Exception as e:
+            return {'accept': False, 'exc': 'first-load:%s' % type(e).__name__}
+        mds.http.pages['https://md.example/fed'] = forged
+        for src in list(mds.metadata.values()):
+            try:
+                src.load()
+            except BaseException as e:      # noqa
+                exc = type(e).__name__
+        try:
+            served = 'urn:vp:evil-idp' in list(mds.keys()) or bool(mds.single_sign_on_service('urn:vp:evil-idp', None))
+        except Exception:
+            served = False
+        return {'accept': served, 'exc': exc}
+    return f
+
+
 def with_version(v, fn):
     def f():
         xmlsec.VERSION[0] = v
@@ -271,6 +308,7 @@ def build_ops():
     OPS['request:only-valid-cert:req-signed-BAD'] = ('verify', op_request('only-valid-cert', 'req-signed-BAD'), False)
     OPS['metadata:signed'] = ('verify', op_metadata(True), True)
     OPS['metadata:signed-BAD'] = ('verify', op_metadata(False), False)
+    OPS['metadata-refresh:forged-second-document'] = ('verify', op_metadata_refresh(), False)
     OPS['metadata-file:signed'] = ('verify', op_metadata(True, 'file'), True)
     OPS['metadata-file:signed-BAD'] = ('verify', op_metadata(False, 'file'), False)
     OPS['create:sign_assertion'] = ('protect', op_create_response(sign_assertion=True), {'ass': True})
